@@ -159,13 +159,13 @@ Proof.
   intros W C U. unfold section_bytes.
   destruct (wf_layout _ W i d U) as (L1 & L2 & L3).
   pose proof (wf_dataoff _ W). pose proof (wf_descoff _ W). pose proof (wf_descsize _ W). pose proof (wf_total _ W).
+  destruct (Z.ltb_spec (d_size d) 0); [lia|].
   destruct (Z.eqb_spec (d_size d) 0) as [Hz|Hnz].
   - replace (Z.to_nat (d_size d)) with O by lia. now rewrite nread_zero.
   - assert (Hp : 0 < d_size d) by lia.
     destruct (Z.ltb_spec (d_off d) 0); [lia|].
     pose proof (coh_infile _ _ C i d U Hp) as I.
     destruct (Z.leb_spec (Z.of_nat (length st)) (d_off d)); [lia|].
-    destruct (Z.ltb_spec (d_size d) 0); [lia|].
     rewrite Z.min_l by lia. reflexivity.
 Qed.
 
